@@ -1,7 +1,7 @@
 (* C17 correspondence: judge what the harness observed against
    (a) the implementation models (model_agrees): Model/JoinExec.v for the Volcano executors driven
        through the builder API, Model/JoinHw.v for two-table SELECTs through Database::query
-       (SELECT * and joins of three or more tables have no implementation model: black box), and
+       (joins of three or more tables have no implementation model: black box), and
    (b) the reference semantics Model/JoinSpec.v, i.e. the property itself (spec_ok): the rows
        returned are, as a bag, the rows SQL defines -- under every memory budget.
    Evaluated by vm_compute; definitions only. *)
@@ -73,18 +73,15 @@ Definition spec_ok (c : case) : bool :=
   end.
 
 (* ------------------------------------------------------------------ known_class *)
-(* 1: a hash-based executor and a pair of rows whose keys are equal in SQL (ON is TRUE) but not
-      identical values (Int 1 / Float 1.0, 0.0 / -0.0): Value::hash_to hashes them differently *)
+(* The former class 1 (hash executors missed keys that are equal in SQL but not identical values,
+   Int 1 / Float 1.0, 0.0 / -0.0) was repaired in /repo by 50ce016 (hash_join_key); executor cases
+   have no open finding class.  `mixed_equal` still marks the regime for the statistics. *)
 Definition keys_identical (l r : row) (lk rk : list nat) : bool :=
   keys_all (fun a b => match a, b with Some x, Some y => value_eqb x y | _, _ => false end) l r lk rk.
-Definition cls_exec (a : algo) (lk rk : list nat) (lw : nat) (L R : list hrow) : Z :=
-  match a with
-  | ANestedLoop => 0
-  | _ =>
-      let e := keys_expr lw lk rk in
-      if existsb (fun l => existsb (fun r => on_tt e (fst l) (fst r) && negb (keys_identical (fst l) (fst r) lk rk)) R) L
-      then 1 else 0
-  end.
+Definition mixed_equal (lk rk : list nat) (lw : nat) (L R : list hrow) : bool :=
+  let e := keys_expr lw lk rk in
+  existsb (fun l => existsb (fun r => on_tt e (fst l) (fst r) && negb (keys_identical (fst l) (fst r) lk rk)) R) L.
+Definition cls_exec (a : algo) (lk rk : list nat) (lw : nat) (L R : list hrow) : Z := 0.
 
 Definition known_class (c : case) : Z :=
   match c with
